@@ -112,6 +112,14 @@ def gen_program(rng):
         sh.insert(j, ('var', nm, [('num', b)]))
         k = rng.randint(j + 1, len(sh))
         sh.insert(k, ('rule', [[('class', '.use-%s' % nm[1:])]], [('decl', 'width', [('var', nm)], False)], {'sp_brace': True}))
+    if rng.random() < 0.35:
+        # a top-level variable used BEFORE its (single) definition: when the use ends up in an imported file, the file needs a
+        # definition the importer makes later
+        nm = '@late%d' % rng.randint(0, 9)
+        i = rng.randint(0, len(sh))
+        sh.insert(i, ('rule', [[('class', '.early-%s' % nm[1:])]], [('decl', 'height', [('var', nm)], False)], {'sp_brace': True}))
+        j = rng.randint(i + 1, len(sh))
+        sh.insert(j, ('var', nm, [('num', rng.choice(['5px', '2em', '40%']))]))
     return sh
 
 
